@@ -2478,14 +2478,23 @@ return 1;""",
             for overload in methods:
                 if overload.cpp_if:
                     body.append("#" + overload.cpp_if)
+                # Only arguments which the Python caller passes are counted:
+                # implied, hidden and intent(out) arguments are not.
+                nskip = 0
+                for arg in overload.ast.params:
+                    if (arg.attrs["implied"] or arg.attrs["hidden"]
+                        or arg.metaattrs["intent"] == "out"):
+                        nskip += 1
                 if overload._nargs:
                     body.append(
                         "if (SHT_nargs >= %d && SHT_nargs <= %d) {+"
-                        % overload._nargs
+                        % (overload._nargs[0] - nskip,
+                           overload._nargs[1] - nskip)
                     )
                 else:
                     body.append(
-                        "if (SHT_nargs == %d) {+" % len(overload.ast.params)
+                        "if (SHT_nargs == %d) {+"
+                        % (len(overload.ast.params) - nskip)
                     )
                 append_format(
                     body,
